@@ -136,4 +136,25 @@ WalkOut(C, zfo, rem, acc) ==
                       @@ [end |-> [C EXCEPT !.sqrt = RNorm(a1)], left |-> RZero]
 
 IdealOut(C, zfo, amt) == WalkOut(C, zfo, amt, Acc0)
+---------------------------------------------------------------------------
+(* by price: what the curve prescribes for moving the price from C.sqrt to `target` (a sqrt price in the    *)
+(* swap direction): gross input (fee included), output, fee.  ok = FALSE: the ticks run out before target.  *)
+RECURSIVE WalkTo(_, _, _, _)
+WalkTo(C, zfo, target, acc) ==
+    IF (IF zfo THEN RLe(C.sqrt, target) ELSE RLe(target, C.sqrt)) THEN [acc EXCEPT !.ok = TRUE] @@ [end |-> C]
+    ELSE IF NextTicks(C, zfo) = {} THEN [acc EXCEPT !.ok = FALSE] @@ [end |-> C]
+    ELSE
+      LET t   == NextTick(C, zfo)
+          b0  == C.ticks[t].sqrt
+          b   == IF zfo THEN RMax(b0, target) ELSE RMin(b0, target)
+          hit == REq(b, b0)
+          a   == C.sqrt
+          L   == C.liq
+          in  == IF zfo THEN Amt0(L, b, a) ELSE Amt1(L, a, b)
+          out == IF zfo THEN Amt1(L, b, a) ELSE Amt0(L, a, b)
+          fee == FeeOn(C, in)
+          C1  == IF hit THEN Cross(C, zfo, t) ELSE [C EXCEPT !.sqrt = b]
+      IN  WalkTo(C1, zfo, target, AddStep(acc, L, in, out, fee, t, hit, C.tick))
+
+IdealTo(C, zfo, target) == WalkTo(C, zfo, target, Acc0)
 =============================================================================
